@@ -50,6 +50,8 @@ class C14(core.Prop):
         return [(case['examples'], 'list'), (p, 'list'), (case['examples'], 'dict')]
 
     def model_ops(self, case):
+        if case.get('kind') == 'history':
+            return []
         if not rx.nosampling(case['examples'], case['opts'], case['size']):
             return []
         return [rx.model_extract_op(ex, case['opts'], form) for ex, form in self._variants(case)]
@@ -61,14 +63,73 @@ class C14(core.Prop):
         return rx.canon_rex(outs)
 
     def nontrivial_key(self, case):
+        if case.get('kind') == 'history':
+            return None
         if case['size']:
             self.count('sized')
         if case['seed'] is not None:
             self.count('seeded')
         return json.dumps(case, sort_keys=True) if len(set(case['examples'])) >= 3 else None
 
+    def _deterministic(self, case):
+        kept = set(rx.kept_examples(case['examples'], case['opts']))
+        sampled = bool(case['size']) and len(kept) > case['size']['do_all']
+        return case['seed'] is not None or not sampled
+
+    def history_oracle(self, case):
+        """case = {'kind': 'history', 'cases': [...]}: the last call, made after the others in one process, against
+        the same call in a fresh process, and under two hash seeds"""
+        F = []
+        hist = case['cases']
+        alone0, after0 = rx.fresh_results([[hist[-1]], hist], hashseed=0)
+        alone1, = rx.fresh_results([[hist[-1]]], hashseed=1)
+        if alone0 != alone1:
+            F.append(core.Failure('hash-order-dependent', case, 'PYTHONHASHSEED=0 gives %r, =1 gives %r' % (alone0, alone1),
+                                  'hash-order-dependent'))
+        if after0 != alone0:
+            F.append(core.Failure('history-dependent', case, 'in a fresh process: %r; after %d other call(s): %r'
+                                  % (alone0, len(hist) - 1, after0), 'history-dependent:fresh-process'))
+        return F
+
+    def finish(self, cases):
+        """every deterministic case of the run, re-evaluated alone in a fresh process (and under another hash seed),
+        against the result it gave in this process after all the calls before it"""
+        idx = [i for i, c in enumerate(cases) if c.get('kind') != 'history' and i in self._base and self._deterministic(c)]
+        if not idx:
+            return []
+        fresh = rx.fresh_results([[cases[i]] for i in idx], hashseed=0)
+        self.count('fresh_process_comparisons', len(idx))
+        F = []
+        for i, fr in zip(idx, fresh):
+            if fr == self._base[i]:
+                continue
+            # which earlier call matters?  try each predecessor alone, then the whole prefix
+            prev = [j for j in range(i) if cases[j].get('kind') != 'history']
+            pairs = rx.fresh_results([[cases[j], cases[i]] for j in prev], hashseed=0) if prev else []
+            hist = None
+            for j, r in zip(prev, pairs):
+                if r != fr:
+                    hist = [cases[j], cases[i]]
+                    break
+            if hist is None:
+                hist = [cases[j] for j in prev] + [cases[i]]
+            fs = self.history_oracle({'kind': 'history', 'cases': hist})
+            if not fs:
+                fs = [core.Failure('differs-from-fresh-process', {'kind': 'history', 'cases': hist},
+                                   'in this process %r, alone in a fresh process %r' % (self._base[i], fr),
+                                   'differs-from-fresh-process')]
+            F.extend(fs)
+            if len(F) >= 3:
+                break
+        return F
+
     def oracle(self, case):
         F = []
+        self._cur = getattr(self, '_cur', -1) + 1
+        if not hasattr(self, '_base'):
+            self._base = {}
+        if case.get('kind') == 'history':
+            return self.history_oracle(case)
         fail = lambda clause, detail, key=None: F.append(core.Failure(clause, case, detail, key or clause))
         ex, opts, size, seed = case['examples'], case['opts'], case['size'], case['seed']
         kept = set(rx.kept_examples(ex, opts))
@@ -78,6 +139,7 @@ class C14(core.Prop):
         base, exc, st0, st1 = rx.run_extract(ex, opts, size, seed, 'list')
         if exc is not None:
             return F   # C03 / C13 territory
+        self._base[self._cur] = {'rex': list(base)}
         if seed is not None and st0 != st1:
             fail('prng-state-changed', 'global random state differs after a seeded call', 'prng-state-changed' + sk)
         deterministic = seed is not None or not sampled
